@@ -89,7 +89,7 @@ def obligations(ctx):
         out = E.mk_struct("TransactionOutput", amount=VM.mk_value(coin.t))
         return [R(tb, "self"), R(out, "output")]
     ob = Obligation(ctx, "c07_e2_add_output_admission", "value size: all usize, max_value_size: all u32, coin and min-ADA: all u64",
-                    ["TransactionBuilder::add_output"])
+                    ["TransactionBuilder::add_output"], fallback_native="e2n_c07_add_output")
     nok = 0
     for o in E.explore("TransactionBuilder::add_output", mk):
         if o.kind != "return":
